@@ -143,12 +143,17 @@ def prog_empty_eval():
 def prog_scaled_shuffle():
     envs = synth(1, n=8).shuffle(n=3).scale('mean','std',using=3)
     return (envs, [CtxLearner()], [SequentialCB(record=['reward','context'])]), {}
+def prog_peeked_cache():
+    # the user looks at the first interaction of a cached environment (more than one cache slice of 25) before running the experiment
+    envs = Environments(ListEnv('pk', n=30)).cache()
+    next(iter(envs[0].read()))
+    return (envs.shuffle(n=2), [BanditEpsilonLearner(.1, seed=1), KwargsLearner()], SequentialCB()), {}
 def prog_single():
     return (Environments(ListEnv('s')), RandomLearner(), SequentialCB()), {}
 
 PROGRAMS = {'cross':prog_cross, 'chunk_shuffle':prog_chunk_shuffle, 'cache_take':prog_cache_take, 'tuples_shared':prog_tuples_shared,
             'logged_rejection':prog_logged_rejection, 'custom_chunked':prog_custom_chunked, 'one_env_two_evals':prog_one_env_two_evals, 'logged_shuffle':prog_logged_shuffle, 'single':prog_single,
-            'info_mix':prog_info_mix, 'rejection_seeded':prog_rejection_seeded, 'empty_eval':prog_empty_eval, 'scaled_shuffle':prog_scaled_shuffle}
+            'info_mix':prog_info_mix, 'rejection_seeded':prog_rejection_seeded, 'empty_eval':prog_empty_eval, 'scaled_shuffle':prog_scaled_shuffle, 'peeked_cache':prog_peeked_cache}
 
 # ---------------------------------------------------------------------------------------------------
 def reset_context():
